@@ -244,6 +244,12 @@ class SymK(KBase):
         self.failure = {'what': what, 'inputs': inputs, 'observed': robs, 'notes': _plain(self.notes)}
         return False
 
+    def fail_hard(self, what, **obs):
+        """a failure that no known-finding guard may absorb"""
+        import dataclasses
+        self.cond = dataclasses.replace(self.cond, known=[])
+        return self.fail(what, **obs)
+
     def _guard_env(self):
         env = dict(self.params)
         for name, kind, h in self.names:
@@ -348,6 +354,9 @@ class ConcK(KBase):
 
     def conc(self, x):
         return x
+
+    def fail_hard(self, what, **obs):
+        return self.fail(what, **obs)
 
     def fail(self, what, **obs):
         robs = {k: _plain_c(v) for k, v in obs.items()}
